@@ -601,6 +601,7 @@ def run(ctx):
     # counted per pass; an invalidity that survives to the final model is a violation attributed to the FIRST pass that introduced it
     pstats = collections.Counter()
     n_pass_cases = [0]
+    wf_inter, wf_inter_seen = [], set()
 
     def per_pass_validity(c, opts, base=None):
         from harness import c03_passes as P
@@ -617,6 +618,14 @@ def run(ctx):
                 continue
             pstats["pass-results-checked"] += 1
             last = a
+            if len(wf_inter) < (400 if quick else 1500) and modified:
+                try:
+                    lit = graphlit.graph_lit(_sub_inits_as_constants(a).graph)
+                    if lit not in wf_inter_seen:
+                        wf_inter_seen.add(lit)
+                        wf_inter.append((pname, k == len(recs) - 1, lit))
+                except Exception:
+                    pstats["intermediate-not-printable"] += 1
             bad_chk = _checker_fails(a)
             bad_sig = R.signature_diff(c.model, a) is not None
             for kind, bad in (("checker", bad_chk), ("signature", bad_sig)):
@@ -694,6 +703,21 @@ def run(ctx):
                    f"{stats['wf-evaluated']} results, original well-formed in {stats['wf-original-true']}")
     ctx.obligation("no exception / checker failure / signature change / lost default on valid generated models (known findings excepted)",
                    not ctx.violations, f"{dict(stats)}")
+    # wf_graphb (Graph/Wf.v) on the intermediate models: counted per pass (the final models are checked against the original above)
+    for start in range(0, len(wf_inter), 200):
+        chunk = wf_inter[start:start + 200]
+        body = "".join(f"Definition w_{i} : graph := {lit}.\n" for i, (_p, _l, lit) in enumerate(chunk))
+        body += ("Fixpoint bad (i : nat) (l : list graph) : list nat := match l with [] => [] | g :: t => (if wf_graphb g then [] else [i]) ++ bad (S i) t end.\n"
+                 f"Eval vm_compute in (bad 0 {clist([f'w_{i}' for i in range(len(chunk))])}).\n")
+        ok, vals, raw = ctx.coq_eval(["OV.Graph.Syntax", "OV.Graph.Wf"], body, timeout=900, name="wfinter")
+        if not ok or not vals:
+            ctx.tie_broken("checker", "wf_graphb:intermediate-models", raw[-800:])
+            break
+        badset = set(parse_nat_list(vals[0]))
+        for i, (pname, is_last, _lit) in enumerate(chunk):
+            pstats["intermediate-wf_graphb-evaluated"] += 1
+            if i in badset:
+                pstats[f"intermediate-wf_graphb-false-after:{pname}"] += 1
     ctx.obligation("validity after every pass of the real pipeline: no checker / signature invalidity survives to the final model (known findings excepted)",
                    pstats["pipelines-observed"] > 0, f"{dict(pstats)}")
     ctx.cover(trace=dict(tstats), checks=dict(stats), per_pass_validity=dict(pstats), discarded=dict(discards), exception_kinds=dict(exc_kinds))
